@@ -336,3 +336,263 @@ Proof.
       split; [apply c_refl|]. split; [reflexivity|exact E2].
     + intros s _. reflexivity.
 Qed.
+
+(* ---------- leaf paths are pairwise distinct ---------- *)
+Lemma leaves_suffix : forall x p l, In l (leaves_inst p x) -> exists pre, lf_path l = pre ++ iname x :: p.
+Proof.
+  intros x. induction x as [nm dev dp c|nm ports sigs body c IHb] using hinst_ind'; intros p l Hl; cbn [leaves_inst] in Hl.
+  - destruct Hl as [<-|[]]. exists []. reflexivity.
+  - apply in_flat_map in Hl. destruct Hl as [y [Hy Hl]]. rewrite Forall_forall in IHb.
+    destruct (IHb y Hy _ _ Hl) as [pre E]. exists (pre ++ [iname y]). rewrite E. cbn [iname]. rewrite <- app_assoc. reflexivity.
+Qed.
+
+Lemma NoDup_app' {A} (a b : list A) : NoDup a -> NoDup b -> (forall x, In x a -> ~ In x b) -> NoDup (a ++ b).
+Proof.
+  induction a as [|x a IH]; intros Ha Hb Hd; [exact Hb|]. cbn [app]. inversion Ha; subst. constructor.
+  - intros Hin. apply in_app_or in Hin. destruct Hin as [Hin|Hin]; [contradiction|]. apply (Hd x (or_introl eq_refl) Hin).
+  - apply IH; [assumption|assumption|]. intros y Hy. apply Hd. right. exact Hy.
+Qed.
+
+Lemma leaves_body_nodup p body : NoDup (map iname body) ->
+  (forall y, In y body -> NoDup (map lf_path (leaves_inst p y))) ->
+  NoDup (map lf_path (flat_map (leaves_inst p) body)).
+Proof.
+  induction body as [|y body IH]; intros ND Hy; cbn [flat_map map]; [constructor|].
+  cbn [map] in ND. inversion ND as [|? ? Hn ND']; subst. rewrite map_app. apply NoDup_app'.
+  - apply Hy. left. reflexivity.
+  - apply IH; [exact ND'|]. intros z Hz. apply Hy. right. exact Hz.
+  - intros q Hq1 Hq2. apply in_map_iff in Hq1. destruct Hq1 as [l1 [E1 Hl1]]. apply in_map_iff in Hq2. destruct Hq2 as [l2 [E2 Hl2]].
+    apply in_flat_map in Hl2. destruct Hl2 as [z [Hz Hl2]].
+    destruct (leaves_suffix _ _ _ Hl1) as [pre1 P1]. destruct (leaves_suffix _ _ _ Hl2) as [pre2 P2].
+    rewrite <- E2 in E1. rewrite P1, P2 in E1. apply suffix_inj in E1. apply Hn. rewrite E1. apply in_map. exact Hz.
+Qed.
+
+Lemma leaves_inst_nodup : forall x p, wf_inst x = true -> NoDup (map lf_path (leaves_inst p x)).
+Proof.
+  intros x. induction x as [nm dev dp c|nm ports sigs body c IHb] using hinst_ind'; intros p Hwf; cbn [leaves_inst].
+  - cbn. constructor; [intros []|constructor].
+  - cbn [wf_inst] in Hwf. apply andb_prop in Hwf. destruct Hwf as [Hwf W3]. apply andb_prop in Hwf. destruct Hwf as [_ W2].
+    apply nodupb_NoDup in W2. rewrite forallb_forall in W3. rewrite Forall_forall in IHb.
+    apply leaves_body_nodup; [exact W2|]. intros y Hy. apply IHb; [exact Hy|apply W3; exact Hy].
+Qed.
+
+Lemma leaves_nodup t : wf_hier t = true -> NoDup (map lf_path (leaves t)).
+Proof.
+  intros Hwf. unfold wf_hier in Hwf. apply andb_prop in Hwf. destruct Hwf as [W1 W2].
+  apply nodupb_NoDup in W1. rewrite forallb_forall in W2. unfold leaves.
+  apply leaves_body_nodup; [exact W1|]. intros y Hy. apply leaves_inst_nodup. apply W2. exact Hy.
+Qed.
+
+(* ---------- the flattened module ---------- *)
+Definition an_finst (an : anode) : finst :=
+  {| fi_name := flat_name (an_path an); fi_dev := an_dev an; fi_dports := an_dports an;
+     fi_conns := map (fun c => (fst c, fsig_name (snd c))) (an_conns an) |}.
+
+Lemma build_insts t nodes : f_insts (build t nodes) = map an_finst nodes.
+Proof. reflexivity. Qed.
+
+Lemma flatten_inv t f : flatten t = Ok (FNew f) ->
+  exists nodes cl, walk_top t = Ok (nodes, cl) /\ check_claims [] (top_claims t ++ cl) = Ok tt /\ f = build t nodes /\ is_flat t = false.
+Proof.
+  unfold flatten. destruct (is_flat t) eqn:Ef; [discriminate|].
+  destruct (walk_top t) as [[nodes cl]|e] eqn:Ew; cbn [bind]; [|discriminate]. cbn [fst snd].
+  destruct (check_claims [] (top_claims t ++ cl)) as [[]|e] eqn:Ec; cbn [bind]; [|discriminate].
+  intros H. inversion H; subst. exists nodes, cl. split; [reflexivity|]. split; [exact Ec|]. split; reflexivity.
+Qed.
+
+Lemma Forall2_in_r {A B} (R : A -> B -> Prop) la lb : Forall2 R la lb -> forall b, In b lb -> exists a, In a la /\ R a b.
+Proof.
+  induction 1 as [|a b la lb Hab _ IH]; intros b' Hb; [destruct Hb|].
+  destruct Hb as [<-|Hb]; [exists a; split; [left; reflexivity|exact Hab]|].
+  destruct (IH _ Hb) as [a' [Ha' Hr]]. exists a'. split; [right; exact Ha'|exact Hr].
+Qed.
+
+Lemma Forall2_map_eq {A B C} (R : A -> B -> Prop) (g : A -> C) (h : B -> C) la lb :
+  Forall2 R la lb -> (forall a b, R a b -> g a = h b) -> map g la = map h lb.
+Proof. induction 1 as [|a b la lb Hab _ IH]; intros H; cbn [map]; [reflexivity|]. rewrite (H _ _ Hab), (IH H). reflexivity. Qed.
+
+Lemma NoDup_map_inj_in {A B} (g : A -> B) l : NoDup l -> (forall x y, In x l -> In y l -> g x = g y -> x = y) -> NoDup (map g l).
+Proof.
+  induction l as [|x l IH]; intros ND Hinj; cbn [map]; [constructor|]. inversion ND; subst. constructor.
+  - intros Hin. apply in_map_iff in Hin. destruct Hin as [y [E Hy]].
+    assert (y = x) by (apply Hinj; [right; exact Hy|left; reflexivity|exact E]). subst. contradiction.
+  - apply IH; [assumption|]. intros a b Ha Hb. apply Hinj; right; assumption.
+Qed.
+
+Lemma Forall2_in_l {A B} (R : A -> B -> Prop) la lb : Forall2 R la lb -> forall a, In a la -> exists b, In b lb /\ R a b.
+Proof.
+  induction 1 as [|a b la lb Hab _ IH]; intros a' Ha; [destruct Ha|].
+  destruct Ha as [<-|Ha]; [exists b; split; [left; reflexivity|exact Hab]|].
+  destruct (IH _ Ha) as [b' [Hb' Hr]]. exists b'. split; [right; exact Hb'|exact Hr].
+Qed.
+
+Section Flat.
+Variable t : hmod.
+Variables (nodes : list anode) (cl : list hpath).
+Hypothesis Hwf : wf_hier t = true.
+Hypothesis Hwalk : walk_top t = Ok (nodes, cl).
+Hypothesis Hchk : check_claims [] (top_claims t ++ cl) = Ok tt.
+Let C := top_claims t ++ cl.
+Let F := fmod_hmod (build t nodes).
+
+Lemma flat_names_nodup : NoDup (map (fun an => flat_name (an_path an)) nodes).
+Proof.
+  pose proof (walk_top_rel t nodes cl Hwf Hwalk) as R.
+  rewrite <- (map_map an_path flat_name). apply NoDup_map_inj_in.
+  - rewrite (Forall2_map_eq _ an_path lf_path _ _ R); [apply leaves_nodup; exact Hwf|]. intros a b [E _]. exact E.
+  - intros x y Hx Hy E. apply in_map_iff in Hx. destruct Hx as [a [<- Ha]]. apply in_map_iff in Hy. destruct Hy as [b [<- Hb]].
+    assert (HC : forall a0, In a0 nodes -> In (an_path a0) C).
+    { intros a0 Ha0. destruct (Forall2_in_l _ _ _ R a0 Ha0) as [l [Hl Hr]].
+      destruct Hr as [E1 [_ [_ [Hc _]]]]. rewrite E1. exact Hc. }
+    apply (claims_injective _ Hchk); [apply HC; exact Ha|apply HC; exact Hb|exact E].
+Qed.
+
+Lemma flat_inst_at an : In an nodes -> inst_at F [] (flat_name (an_path an)) = Some (finst_hinst (an_finst an)).
+Proof.
+  intros Ha. unfold inst_at, mod_at. cbn [rev mod_down]. unfold F. cbn [fmod_hmod h_body]. rewrite build_insts.
+  change (flat_name (an_path an)) with (iname (finst_hinst (an_finst an))).
+  apply find_hinst_in.
+  - rewrite !map_map. cbn [iname finst_hinst an_finst fi_name]. exact flat_names_nodup.
+  - apply in_map. apply in_map. exact Ha.
+Qed.
+
+(* every terminal of the hierarchy is joined, in the hierarchy, to a fixed signal q that has been claimed, and its
+   image in the flattened module is joined to the top-level signal named flat_name q *)
+Lemma term_rep a : In a (terminals t) ->
+  exists q : qsig, In (qn q) C /\ hconn_rel t a (qnode q) /\ fixedp t (qnode q) /\
+                   hconn_rel F (tr a) (HSig [] (flat_name (qn q))).
+Proof.
+  intros Ha. unfold terminals in Ha. apply in_app_or in Ha. destruct Ha as [Ha|Ha].
+  - apply in_map_iff in Ha. destruct Ha as [[s w] [<- Hs]]. cbn [fst]. exists ([], s). unfold qn, qnode. cbn [fst snd].
+    split; [|split; [apply c_refl|split; [reflexivity|apply c_refl]]].
+    unfold C. apply in_or_app. left. unfold top_claims. apply in_map_iff. exists (s, w). split; [reflexivity|].
+    apply in_or_app. left. exact Hs.
+  - apply in_flat_map in Ha. destruct Ha as [l [Hl Ha]].
+    pose proof (walk_top_rel t nodes cl Hwf Hwalk) as R.
+    destruct (Forall2_in_r _ _ _ R l Hl) as [an [Han [E1 [E2 [E3 [Hc [i [lp [Ep [Hinst [Hports Hno]]]]]]]]]]].
+    unfold leaf_terms in Ha. rewrite Ep in Ha. apply in_flat_map in Ha. destruct Ha as [[port c0] [Hc0 Ha]]. cbn [fst snd] in Ha.
+    destruct c0 as [s0|]; [|destruct Ha]. destruct Ha as [<-|[]].
+    destruct (in_assoc _ _ _ Hc0) as [v Hv].
+    destruct v as [s|]; [|exfalso; apply (Hno port); apply assoc_in; exact Hv].
+    destruct (Hports _ _ Hv) as [f [Hf [Hconn [Hfix HinC]]]].
+    exists (fst f). split; [exact HinC|]. split; [exact Hconn|]. split; [exact Hfix|].
+    apply step_conn. cbn [tr hstep]. rewrite <- Ep, <- E1. rewrite (flat_inst_at an Han).
+    cbn [iconns finst_hinst an_finst fi_conns]. rewrite !assoc_map. rewrite Hf. reflexivity.
+Qed.
+
+Lemma qnode_inj q q' : qnode q = qnode q' -> q = q'.
+Proof. destruct q, q'. unfold qnode. cbn. intros H. inversion H. reflexivity. Qed.
+
+Lemma qn_inj q q' : qn q = qn q' -> q = q'.
+Proof. destruct q, q'. unfold qn. cbn. intros H. inversion H. reflexivity. Qed.
+
+Theorem nets_preserved a b : In a (terminals t) -> In b (terminals t) ->
+  (hconn_rel t a b <-> hconn_rel F (tr a) (tr b)).
+Proof.
+  intros Ha Hb. destruct (term_rep a Ha) as [qa [Ca [A1 [A2 A3]]]]. destruct (term_rep b Hb) as [qb [Cb [B1 [B2 B3]]]].
+  split; intros H.
+  - assert (qa = qb) as ->.
+    { apply qnode_inj. apply (conn_fixed_eq (hstep t)); [|exact A2|exact B2].
+      eapply c_trans; [apply c_sym; exact A1|]. eapply c_trans; [exact H|exact B1]. }
+    eapply c_trans; [exact A3|apply c_sym; exact B3].
+  - assert (qa = qb) as ->.
+    { apply qn_inj. apply (claims_injective _ Hchk); [exact Ca|exact Cb|].
+      assert (E : HSig [] (flat_name (qn qa)) = HSig [] (flat_name (qn qb))).
+      { apply (conn_fixed_eq (hstep F)); [|reflexivity|reflexivity].
+        eapply c_trans; [apply c_sym; exact A3|]. eapply c_trans; [exact H|exact B3]. }
+      inversion E. reflexivity. }
+    eapply c_trans; [exact A1|apply c_sym; exact B1].
+Qed.
+
+Theorem leaves_preserved :
+  map (fun fi => (fi_name fi, fi_dev fi, fi_dports fi)) (f_insts (build t nodes))
+  = map (fun l => (flat_name (lf_path l), lf_dev l, lf_ports l)) (leaves t)
+  /\ NoDup (map fi_name (f_insts (build t nodes))).
+Proof.
+  pose proof (walk_top_rel t nodes cl Hwf Hwalk) as R. rewrite build_insts. split.
+  - rewrite map_map. apply (Forall2_map_eq _ _ _ _ _ R).
+    intros an l [E1 [E2 [E3 _]]]. cbn [an_finst fi_name fi_dev fi_dports]. rewrite E1, E2, E3. reflexivity.
+  - rewrite map_map. cbn [an_finst fi_name]. exact flat_names_nodup.
+Qed.
+End Flat.
+
+(* ---------- rejection ---------- *)
+Lemma no_other_conns (c : list (name * hconn)) : (forall port, ~ In (port, COther) c) -> existsb other_conn c = false.
+Proof.
+  intros H. destruct (existsb other_conn c) eqn:E; [|reflexivity]. apply existsb_exists in E.
+  destruct E as [[port x] [Hin Hx]]. unfold other_conn in Hx. cbn [snd] in Hx. destruct x; [discriminate|]. exfalso. exact (H _ Hin).
+Qed.
+
+Lemma collect_ok_each {A} (f : A -> result wout) l : forall r, collect f l = Ok r -> forall y, In y l -> exists r', f y = Ok r'.
+Proof.
+  induction l as [|y l IH]; intros r H z Hz; [destruct Hz|]. cbn [collect] in H.
+  destruct (f y) as [r1|e] eqn:E1; cbn [bind] in H; [|discriminate].
+  destruct (collect f l) as [r2|e] eqn:E2; cbn [bind] in H; [|discriminate].
+  destruct Hz as [<-|Hz]; [eauto|]. apply (IH _ eq_refl _ Hz).
+Qed.
+
+Lemma walk_ok_no_other : forall x p mp ms env r, walk_inst p mp ms env x = Ok r -> has_other x = false.
+Proof.
+  intros x. induction x as [nm dev dp c|nm ports sigs body c IHb] using hinst_ind'; intros p mp ms env r H; cbn [walk_inst has_other] in *.
+  - destruct (new_conns p mp ms env c) as [[nc cl0]|e] eqn:En; cbn [bind] in H; [|discriminate].
+    destruct (new_conns_spec _ _ _ _ _ _ _ En) as [_ [_ S3]]. apply no_other_conns. exact S3.
+  - destruct (new_conns p mp ms env c) as [[nc cl0]|e] eqn:En; cbn [bind] in H; [|discriminate]. cbn [fst snd] in H.
+    destruct (collect (walk_inst (nm :: p) ports sigs nc) body) as [r2|e] eqn:Ec; cbn [bind] in H; [|discriminate].
+    destruct (new_conns_spec _ _ _ _ _ _ _ En) as [_ [_ S3]]. rewrite (no_other_conns _ S3). cbn [orb].
+    destruct (existsb has_other body) eqn:E; [|reflexivity]. apply existsb_exists in E. destruct E as [y [Hy E]].
+    rewrite Forall_forall in IHb. destruct (collect_ok_each _ _ _ Ec y Hy) as [r' Hr']. rewrite (IHb y Hy _ _ _ _ _ Hr') in E. discriminate.
+Qed.
+
+Lemma flatten_rejects_other t : is_flat t = false -> existsb has_other (h_body t) = true -> exists e, flatten t = Error e.
+Proof.
+  intros Ef Ho. unfold flatten. rewrite Ef. destruct (walk_top t) as [r|e] eqn:Ew; cbn [bind]; [|eauto].
+  exfalso. apply existsb_exists in Ho. destruct Ho as [y [Hy E]]. unfold walk_top in Ew.
+  destruct (collect_ok_each _ _ _ Ew y Hy) as [r' Hr']. rewrite (walk_ok_no_other _ _ _ _ _ _ Hr') in E. discriminate.
+Qed.
+
+Lemma flatten_rejects_collision t nodes cl : is_flat t = false -> walk_top t = Ok (nodes, cl) ->
+  (exists q q', In q (top_claims t ++ cl) /\ In q' (top_claims t ++ cl) /\ flat_name q = flat_name q' /\ q <> q') ->
+  exists e, flatten t = Error e.
+Proof.
+  intros Ef Ew [q [q' [Hq [Hq' [E Hne]]]]]. unfold flatten. rewrite Ef, Ew. cbn [bind fst snd].
+  destruct (check_claims [] (top_claims t ++ cl)) as [[]|e] eqn:Ec; cbn [bind]; [|eauto].
+  exfalso. apply Hne. apply (claims_injective _ Ec); assumption.
+Qed.
+
+Lemma flatten_accepts t nodes cl : is_flat t = false -> walk_top t = Ok (nodes, cl) ->
+  (forall q q', In q (top_claims t ++ cl) -> In q' (top_claims t ++ cl) -> flat_name q = flat_name q' -> q = q') ->
+  flatten t = Ok (FNew (build t nodes)).
+Proof.
+  intros Ef Ew Hinj. unfold flatten. rewrite Ef, Ew. cbn [bind fst snd].
+  rewrite (check_claims_complete (top_claims t ++ cl) []); [reflexivity| | |].
+  - intros q Hq q' [Hq'|Hq'] E; [apply Hinj; assumption|discriminate].
+  - intros k q X; discriminate.
+  - intros k q X; discriminate.
+Qed.
+
+Lemma flatten_same t : flatten t = Ok FSame <-> is_flat t = true.
+Proof.
+  unfold flatten. destruct (is_flat t); split; intros H; try reflexivity; try discriminate.
+  destruct (walk_top t) as [r|e]; cbn [bind] in H; [|discriminate].
+  destruct (check_claims [] (top_claims t ++ snd r)) as [u|e]; cbn [bind] in H; discriminate.
+Qed.
+
+(* ---------- bits: a whole-signal connection relates bit k to bit k ---------- *)
+Lemma conn_bits {A} (f : A -> A) (x y : A) (k k' : Z) :
+  conn (A * Z) (fun nk => (f (fst nk), snd nk)) (x, k) (y, k') <-> conn A f x y /\ k = k'.
+Proof.
+  split.
+  - intros H. remember (x, k) as a eqn:Ea. remember (y, k') as b eqn:Eb.
+    assert (G : conn A f (fst a) (fst b) /\ snd a = snd b).
+    { clear Ea Eb. induction H as [a|a|a b _ IH|a b c _ IH1 _ IH2].
+      - split; [apply c_refl|reflexivity].
+      - cbn [fst snd]. split; [apply c_step|reflexivity].
+      - destruct IH. split; [apply c_sym; assumption|congruence].
+      - destruct IH1, IH2. split; [eapply c_trans; eassumption|congruence]. }
+    subst a b. exact G.
+  - intros [H <-]. induction H as [a|a|a b _ IH|a b c _ IH1 _ IH2].
+    + apply c_refl.
+    + apply (c_step (A * Z) (fun nk => (f (fst nk), snd nk)) (a, k)).
+    + apply c_sym. exact IH.
+    + eapply c_trans; eassumption.
+Qed.
